@@ -285,6 +285,8 @@ class Fn:
                 return lit(WIDTH[el.replace("const ", "")][0] // 8 * cnt)
             if el.replace("const ", "") in ("uint8_t", "int8_t"):
                 return lit(cnt)
+            if el.replace("const ", "") in ("uint_fast16_t", "gf_elem"):
+                return "(Z.of_N sizeof_idx)" if cnt == 16 else "(Z.of_N sizeof_idx / 16 * %d)" % cnt
             raise Unsupported("sizeof " + t)
         if k == "ConditionalOperator":
             c, a, b = n["inner"]
@@ -1150,6 +1152,7 @@ TARGETS = [
 SIGS = {}          # C function -> dict(extra, globals, params, outs, option, cparams, void)
 STRUCT_SIZE = {"polyseed_data": "sizeof_data", "gf_poly": "sizeof_poly", "struct polyseed_data": "sizeof_data"}
 API_INLINE = {"polyseed_free": "polyseed.c", "store32": "polyseed.c"}
+FUNC_CODES = {"compare_str_wrap": 0, "compare_prefix_wrap": 1, "compare_str_noaccent_wrap": 2, "compare_prefix_noaccent_wrap": 3}
 
 
 def strip(n):
@@ -1275,6 +1278,13 @@ class ApiFn(Fn):
             if a_.get("kind") == "DeclRefExpr" and self.lval_name(a_) in self.idx_ptrs and \
                     b_.get("kind") == "DeclRefExpr" and self.lval_name(b_) == self.idx_ptrs[self.lval_name(a_)]:
                 return self.E(a_)
+        if k == "UnaryOperator" and n.get("opcode") == "&":
+            f_ = strip(n["inner"][0])
+            if f_.get("kind") == "DeclRefExpr" and f_.get("referencedDecl", {}).get("kind") == "FunctionDecl":
+                nm = f_["referencedDecl"]["name"]
+                if nm not in FUNC_CODES:
+                    raise Unsupported("address of function " + nm)
+                return lit(FUNC_CODES[nm])       # a comparer is denoted by its number
         if k == "MemberExpr":
             # lang->compose and the like: a registered language is a registry position; its fields are functions of it
             base = strip(n["inner"][0])
@@ -1440,7 +1450,12 @@ class ApiFn(Fn):
             return out
         acts = self.actuals(n, sig)
         names = []
+        ev_merge = False
         for g in sig["outs"]:
+            if g == "ev":
+                names.append(("evc", "list cev"))      # the callee's events, appended to the caller's below
+                ev_merge = True
+                continue
             nm, _a, _w = self.caller_name(g, sig["cparams"], n["inner"][1:], sig)
             names.append((nm, dict(sig["params"]).get(g, "Z")))
             if g in sig.get("idx_out", {}):
@@ -1473,6 +1488,9 @@ class ApiFn(Fn):
             self.pending_close = getattr(self, "pending_close", 0) + 1
         else:
             txt += "let %s := %s in\n" % (self.pat(pat), callt)
+        if ev_merge:
+            self.uses_ev = True
+            txt += "let ev : list cev := ev ++ evc in\n"
         return out + txt
 
     def close(self, text):
@@ -1743,6 +1761,9 @@ class ApiFn(Fn):
                 if f in SIGS and f not in EXTERNS and f not in ("memcpy",):
                     try:
                         for g in SIGS[f]["outs"]:
+                            if g == "ev":
+                                acc.add("ev")
+                                continue
                             acc.add(self.caller_name(g, SIGS[f]["cparams"], n["inner"][1:], SIGS[f])[0])
                     except (Unsupported, KeyError):
                         pass
@@ -1762,6 +1783,9 @@ class ApiFn(Fn):
                 self.char_ptrs.add(p["name"])
             if p.get("kind") == "ParmVarDecl" and "polyseed_data" in ctype(p) and ctype(p).count("*") == 1:
                 self.struct_ptrs.add(p["name"])
+            if p.get("kind") == "ParmVarDecl" and not self.idx_mode and \
+                    re.match(r"(const )?char \*(const )?\s*\*", p.get("type", {}).get("qualType", "")):
+                self.str_arrays.add(p["name"])
         if self.idx_mode:
             for p in self.node["inner"]:
                 if p.get("kind") != "ParmVarDecl":
@@ -1850,6 +1874,7 @@ def data_params(p):
 API_TARGETS = [
     ("gf.c", "gf_poly_check", [("polyseed_mul2_table", "list Z"), ("message_coeff", "list Z")], [], ["polyseed_mul2_table"], "Z"),
     ("gf.c", "gf_poly_encode", [("polyseed_mul2_table", "list Z"), ("message_coeff", "list Z")], ["message_coeff"], ["polyseed_mul2_table"], "list Z"),
+    ("lang.c", "get_comparer", [("lang", "Z")], [], [], "Z"),
     ("polyseed.c", "polyseed_free", [("seed", "Z")], ["ev"], [], "list cev"),
     ("polyseed.c", "polyseed_get_birthday", data_params("data"), [], [], "Z"),
     ("polyseed.c", "polyseed_get_feature", data_params("seed") + [("mask", "Z")], [], [], "Z"),
@@ -1872,6 +1897,9 @@ API_TARGETS = [
 
 
 API_TARGETS += [
+    ("lang.c", "polyseed_phrase_decode",
+     [("phrase", "list (list Z)"), ("idx_out", "list Z"), ("lang_out", "Z"), ("lang_out_0", "Z")],
+     ["ev", "idx_out", "lang_out_0"], [], "list cev * list Z * Z * Z"),
     ("polyseed.c", "str_split", [("str", "list Z"), ("words", "list Z")], ["str", "words"], [], "list Z * list Z * Z"),
     ("polyseed.c", "polyseed_decode",
      [("polyseed_mul2_table", "list Z"), ("reserved_features", "Z"), ("str", "list Z"), ("coin", "Z"),
